@@ -689,11 +689,11 @@ func buildDistribution(c *an.Check, build *ssa.Function, shares *ssa.Call) {
 
 func init() {
 	register(&Def{ID: "C16", Run: c16,
-		Explain:     "Decides on SSA: (R1) UnlockEnvelope returns a payload only past {context hash equal, len(collected) >= threshold+1, Recover ok, AEAD.Open ok} and the payload is Open's result under the key derived from (recovered scalar, envelope id, context); a share is collected only past the not-seen test with the seen-set updated under the same key, which is the canonical re-encoding of the decoded id; (LOOPALLOC) every collected share gets scalars allocated in its own loop iteration and BuildEnvelope allocates a fresh grant body per grant; SharesAvailable = len(collected); grants are decrypted under buildGrantEncContext(envelope id, context, grant index). (LOOPALLOC) one seen-set for the whole call (allocated outside every loop); (PROVENANCE) the grant decryption chain hands s2.Decode a non-nil destination, so an empty grant body is not mistaken for 'could not decrypt'.",
+		Explain:     "Decides on SSA: (R1) UnlockEnvelope returns a payload only past {context hash equal, len(collected) >= threshold+1, Recover ok, AEAD.Open ok} and the payload is Open's result under the key derived from (recovered scalar, envelope id, context); a share is collected only past the not-seen test with the seen-set updated under the same key, which is the canonical re-encoding of the decoded id; (LOOPALLOC) every collected share gets scalars allocated in its own loop iteration and BuildEnvelope allocates a fresh grant body per grant; SharesAvailable = len(collected); grants are decrypted under buildGrantEncContext(envelope id, context, grant index). (LOOPALLOC) one seen-set for the whole call (allocated outside every loop); (PROVENANCE) the grant decryption chain hands s2.Decode a non-nil destination, so an empty grant body is not mistaken for 'could not decrypt'. Generated codec sanity for package envelope; the decrypt chain leaves the grant ciphertext untouched.",
 		NotCov:      "the 'exactly when' counting over all configurations and Shamir reconstruction itself (value-level / trusted library).",
 		Assumptions: commonAssumptions})
 	register(&Def{ID: "C17", Run: c17,
-		Explain:     "Decides on SSA for BuildEnvelope: share generation is reached only past 'reachable > threshold', where the compared quantity is an accumulation whose every increment is min(grant share count, remaining budget), is control-dependent on the grant having at least one keypair index, and whose budget is initialised with the very value passed to Share(n) (so an override or a different count cannot diverge between validation and generation); the sharing threshold is the configured one; grants are filled from the generated list. (LOOPALLOC) every collected share has scalars of its own; (PROVENANCE) the distribution loop hands out (ID, Value) of one generated share, advances its cursor by one per handed share, encrypts each grant body to keypairs[cfg[gi].KeypairIndexes[r]] under buildGrantEncContext(id, context, gi), stores ciphertext r at position r and the grant at index gi, and records the configured threshold and the keypairs in order.",
+		Explain:     "Decides on SSA for BuildEnvelope: share generation is reached only past 'reachable > threshold', where the compared quantity is an accumulation whose every increment is min(grant share count, remaining budget), is control-dependent on the grant having at least one keypair index, and whose budget is initialised with the very value passed to Share(n) (so an override or a different count cannot diverge between validation and generation); the sharing threshold is the configured one; grants are filled from the generated list. (LOOPALLOC) every collected share has scalars of its own; (PROVENANCE) the distribution loop hands out (ID, Value) of one generated share, advances its cursor by one per handed share, encrypts each grant body to keypairs[cfg[gi].KeypairIndexes[r]] under buildGrantEncContext(id, context, gi), stores ciphertext r at position r and the grant at index gi, and records the configured threshold and the keypairs in order. Generated codec sanity for package envelope; decrypt leaves its input untouched.",
 		NotCov:      "equivalence of the validation model and the distribution loop for every configuration, and that recipients' keys decrypt their grants (C12).",
 		Assumptions: commonAssumptions})
 }
